@@ -16,6 +16,8 @@ import (
 	"reflect"
 	"strconv"
 	"strings"
+	"sync"
+	"sync/atomic"
 	"testing"
 	"time"
 
@@ -312,6 +314,46 @@ func TestForeignHellos(t *testing.T) {
 		}()
 		prevRecord = fh.record
 		w.Write(Ev{"key": fmt.Sprintf("%d/%s/%s", i, fh.shape, ksn), "shape": fh.shape + "/" + ksn, "diff": diff, "len": len(fh.record), "hello": fmt.Sprintf("%x", fh.record[:min(len(fh.record), 300)])})
+	}
+	// the same hellos handled at the same time by eight goroutines: every connection is still passed through byte for byte
+	{
+		rr := rand.New(rand.NewSource(seed() + 77))
+		var hellos []foreignHello
+		for i := 0; i < min(n, 400); i++ {
+			hellos = append(hellos, genForeign(rr, 6+8*i)) // the class with the longest path: a held key's id, undecryptable
+			hellos = append(hellos, genForeign(rr, i))
+		}
+		var wg sync.WaitGroup
+		var bad atomic.Int64
+		var once sync.Once
+		for g := 0; g < 8; g++ {
+			wg.Add(1)
+			go func(g int) {
+				defer wg.Done()
+				buf := make([]byte, 70000)
+				for round := 0; round < 3; round++ {
+					for i := g; i < len(hellos); i += 8 {
+						fh := hellos[(i+round*5)%len(hellos)]
+						func() {
+							defer func() { recover() }()
+							c, err := ech.NewConn(t.Context(), newScriptConn(fh.record), ech.WithKeys(keySets["sameid"]))
+							if err != nil || c.ECHAccepted() {
+								return
+							}
+							m, _ := io.ReadAtLeast(c, buf, len(fh.record))
+							if m >= len(fh.record) && !bytes.Equal(buf[3:len(fh.record)], fh.record[3:]) {
+								bad.Add(1)
+								once.Do(func() {
+									w.Write(Ev{"key": "concurrent/" + fh.shape, "shape": "concurrent", "len": len(fh.record), "hello": fmt.Sprintf("%x", fh.record[:min(len(fh.record), 300)]),
+										"diff": "handled at the same time as other connections, the forwarded ClientHello differs from the one the client sent"})
+								})
+							}
+						}()
+					}
+				}
+			}(g)
+		}
+		wg.Wait()
 	}
 	w.Write(Ev{"summary": true, "n": n, "checked_against_crypto_tls": oracle2, "crypto_tls_declined": skipped})
 }
